@@ -127,6 +127,7 @@ func (d *drv) runTrace(t int, u *Universe, ops []op) {
 			lastFlush = i
 		}
 	}
+	dirty := true // something was delivered since the oracle last ran
 	for i, o := range ops {
 		switch o.Op {
 		case "deliver":
@@ -135,8 +136,10 @@ func (d *drv) runTrace(t int, u *Universe, ops []op) {
 			d.log.Emit("deliver", map[string]any{"k": o.K, "v": o.V})
 			main.vf.OnUpdates([]api.Update{update(key, val, had && old != "nil")})
 			delivered[o.K] = o.V
+			dirty = true
 		case "status":
 			d.log.Emit("status", map[string]any{"s": o.V})
+			dirty = true
 			switch o.V {
 			case "in-sync":
 				main.vf.OnStatusUpdated(api.InSync)
@@ -147,8 +150,10 @@ func (d *drv) runTrace(t int, u *Universe, ops []op) {
 		case "flush":
 			main.flush()
 			d.log.Emit("flushed", map[string]any{})
-			if insync && (d.fresh == "all" || (d.fresh == "end" && i == lastFlush)) {
-				d.freshOracle(u, delivered)
+			if insync && ((d.fresh == "all" && dirty) || (d.fresh != "none" && i == lastFlush)) {
+				d.freshOracle(u, delivered, false)
+				d.freshOracle(u, delivered, true)
+				dirty = false
 			}
 		}
 	}
@@ -156,14 +161,27 @@ func (d *drv) runTrace(t int, u *Universe, ops []op) {
 
 // freshOracle: a second, newly constructed real pipeline is fed only the currently delivered state, told
 // in-sync and flushed; everything it emits is logged.
-func (d *drv) freshOracle(u *Universe, delivered map[string]string) {
+// With absent = true the values the catalogue declares invalid are left out (C05: invalid = absent); that second
+// run is skipped when no delivered value is invalid.
+func (d *drv) freshOracle(u *Universe, delivered map[string]string, absent bool) {
+	if absent {
+		any := false
+		for kid, vn := range delivered {
+			if vn != "nil" && u.key(kid).variant(vn).Invalid {
+				any = true
+			}
+		}
+		if !any {
+			return
+		}
+	}
 	msgs := []any{}
 	f := newInst(u, func(m any) { msgs = append(msgs, project(m)) })
 	fed := map[string]string{}
 	for i := range u.Keys {
 		kid := u.Keys[i].ID
 		vn, ok := delivered[kid]
-		if !ok || vn == "nil" {
+		if !ok || vn == "nil" || (absent && u.Keys[i].variant(vn).Invalid) {
 			continue
 		}
 		key, val := freshValue(u.Name, kid, vn)
@@ -172,7 +190,7 @@ func (d *drv) freshOracle(u *Universe, delivered map[string]string) {
 	}
 	f.vf.OnStatusUpdated(api.InSync)
 	f.flush()
-	d.log.Emit("fresh", map[string]any{"fed": fed, "msgs": msgs})
+	d.log.Emit("fresh", map[string]any{"fed": fed, "msgs": msgs, "absent": absent})
 }
 
 // ---- binding of TLC behaviours (abstract keys k1.., values 0..) to catalogue keys ---------------
@@ -226,23 +244,43 @@ func bindBehaviour(u *Universe, beh []map[string]any, rnd *rand.Rand) []op {
 		}
 		ops = append(ops, op{Op: "deliver", K: k.ID, V: v.Name})
 	}
+	truth := map[string]int{}
+	deliv := map[string]int{}
+	insync := false
+	val := func(ak string, vi int) string {
+		if vi == 0 {
+			return "nil"
+		}
+		vs := vmap[ak]
+		return vs[(vi-1)%len(vs)]
+	}
 	for _, r := range beh {
 		switch tracelog.Str(r["op"]) {
+		case "write":
+			truth[tracelog.Str(r["k"])] = tracelog.Int(r["v"])
 		case "deliver":
 			ak := tracelog.Str(r["k"])
 			vi := tracelog.Int(r["v"])
-			vn := "nil"
-			if vi > 0 {
-				vs := vmap[ak]
-				vn = vs[(vi-1)%len(vs)]
-			}
-			ops = append(ops, op{Op: "deliver", K: bind[ak].ID, V: vn})
+			deliv[ak] = vi
+			ops = append(ops, op{Op: "deliver", K: bind[ak].ID, V: val(ak, vi)})
 		case "status":
 			ops = append(ops, op{Op: "status", V: tracelog.Str(r["s"])})
+			insync = insync || tracelog.Str(r["s"]) == "in-sync"
 		case "flush":
 			ops = append(ops, op{Op: "flush"})
 		}
 	}
+	// CatchUp .. final flush of the environment model: deliver the truth for every key still behind
+	for _, i := range rnd.Perm(len(absKeys)) {
+		ak := absKeys[i]
+		if deliv[ak] != truth[ak] {
+			ops = append(ops, op{Op: "deliver", K: bind[ak].ID, V: val(ak, truth[ak])})
+		}
+	}
+	if !insync {
+		ops = append(ops, op{Op: "status", V: "in-sync"})
+	}
+	ops = append(ops, op{Op: "flush"})
 	return ops
 }
 
@@ -422,6 +460,30 @@ func main() {
 		os.Exit(2)
 	}
 	t := 0
+	// hand-written concrete histories (minimal reproductions): [{"universe": u, "ops": [{"Op":..,"K":..,"V":..}]}]
+	if sp := os.Getenv("VERIF_SCRIPT"); sp != "" {
+		b, err := os.ReadFile(sp)
+		if err != nil {
+			fmt.Fprintln(os.Stderr, err)
+			os.Exit(2)
+		}
+		var scripts []struct {
+			Universe string
+			Ops      []op
+		}
+		if err := json.Unmarshal(b, &scripts); err != nil {
+			fmt.Fprintln(os.Stderr, err)
+			os.Exit(2)
+		}
+		for _, sc := range scripts {
+			for _, u := range all {
+				if u.Name == sc.Universe {
+					t++
+					d.runTrace(t, u, sc.Ops)
+				}
+			}
+		}
+	}
 	for i, b := range behs {
 		t++
 		u := pickUniverse(unis, env.Seed, i)
